@@ -54,3 +54,8 @@ func (s *Server) VerifTapStore(tap func(actor, repo, call, arg string, post bool
 func VerifWithActor(ctx context.Context, actor string) context.Context {
 	return context.WithValue(ctx, store.VerifCtxKey{}, actor)
 }
+
+// VerifAgeRepo sets the modification time of every blob of a repository.
+func (s *Server) VerifAgeRepo(repo string, t time.Time) (int, error) {
+	return store.VerifAgeRepo(s.store, repo, t)
+}
